@@ -34,10 +34,14 @@ def field_of(f, n):
     return None
 
 
-def events(f, region):
+def events(f, region, P=None, depth=0, at=None, pmap=None):
+    """symbol-lookup / version / bookkeeping events of a region, in source order.  With P, calls of helpers defined in this
+    repository that are handed one of the two corpora are looked into (two levels): their events are reported at the call,
+    with the helper's corpus parameter replaced by the field the caller passed."""
     out = []
     for n in walk(region):
         k = n["k"]
+        here = at if at is not None else n
         if k == "CXXMemberCallExpr":
             d = f.decl(n)
             nm = (d or {}).get("n", "")
@@ -47,25 +51,49 @@ def events(f, region):
                 rname = None
                 if r is not None and r["k"] == "CXXOperatorCallExpr" and r.get("op") == "->":
                     rname = field_of(f, r["c"][1])
-                out.append((n, "lookup %s->%s/%d" % (rname, norm(nm), len(call_args(n)))))
+                    r0 = strip_casts(r["c"][1])
+                    if rname is None and pmap and r0 is not None and r0["k"] == "DeclRefExpr" and r0.get("d") in pmap:
+                        rname = pmap[r0["d"]]
+                args = call_args(n)
+                arity = "%d" % len(args)
+                if len(args) == 1:
+                    t = f.type(strip_casts(args[0])) or {}
+                    if "basic_string" in t.get("c", ""):
+                        arity = "1-by-name"
+                out.append((here, "lookup %s->%s/%s" % (rname, norm(nm), arity)))
             elif nm in ("is_empty", "is_default"):
                 o = strip_casts(member_call_object(n))
                 if o is not None and o["k"] == "CXXMemberCallExpr" and (f.decl(o) or {}).get("n") == "get_version":
-                    out.append((n, "version." + nm))
+                    out.append((here, "version." + nm))
             elif nm == "erase":
                 fld = field_of(f, member_call_object(n))
                 if fld and re.match(r"(added|deleted)_", fld):
-                    out.append((n, "erase " + norm(fld)))
+                    out.append((here, "erase " + norm(fld)))
         elif k in ("CXXOperatorCallExpr", "BinaryOperator") and n.get("op") == "=":
             l = strip_casts(n["c"][1] if k == "CXXOperatorCallExpr" else n["c"][0])
             if l is not None and l["k"] == "CXXOperatorCallExpr" and l.get("op") == "[]":
                 fld = field_of(f, l["c"][1])
                 if fld and re.match(r"(added|deleted)_", fld):
-                    out.append((n, "store " + norm(fld)))
+                    out.append((here, "store " + norm(fld)))
         elif k == "VarDecl":
             t = f.unit.type((f.decl(n) or {}).get("t"))
             if t is not None and t["c"].endswith("elf_symbol::version"):
-                out.append((n, "empty-version"))
+                out.append((here, "empty-version"))
+        if k == "CallExpr" and P is not None and depth < 2:
+            g = P.funcs.get((f.decl(n) or {}).get("u"))
+            if g is not None and not g.dep and g.body is not None and g.relfile == f.relfile:
+                m = {}
+                for p, a in zip(g.r["params"], call_args(n)):
+                    fld = None
+                    for y in walk(a):
+                        if y["k"] == "MemberExpr" and field_of(f, y) in ("first_", "second_"):
+                            fld = field_of(f, y)
+                        if pmap and y["k"] == "DeclRefExpr" and y.get("d") in pmap:
+                            fld = pmap[y["d"]]
+                    if fld:
+                        m[p] = fld
+                if m:
+                    out.extend(events(g, g.body, P, depth + 1, here, m))
     return out
 
 
